@@ -1,3 +1,4 @@
+import Bardolph.Model.Output
 import Bardolph.Model.Instr
 import Bardolph.Model.Conv
 /-!
@@ -729,27 +730,22 @@ def regByName : String → Option Reg
   | "result" => some .result | "saturation" => some .saturation | "time" => some .time
   | "unit_mode" => some .unitMode | _ => none
 
-/-- names of the named replacement fields of a format string (`string.Formatter().parse`):
-the text between `{` and the first of `}`, `:`, `!`; `{{` and `}}` are literal braces; empty
-and all-digit names are positional.  Nested fields inside a format spec are not looked at. -/
-def fieldsAux : Nat → List Char → List String
-  | 0, _ => []
-  | _, [] => []
-  | n + 1, '{' :: '{' :: rest => fieldsAux n rest
-  | n + 1, '{' :: rest =>
-    let name := rest.takeWhile fun c => c != '}' && c != ':' && c != '!'
-    let after := (rest.dropWhile (· != '}')).drop 1
-    String.ofList name :: fieldsAux n after
-  | n + 1, _ :: rest => fieldsAux n rest
+/-- the replacement fields of a format string as `printf` sees them
+(`bardolph/lib/format_fields.py`; the model is `Out.fieldHeads` of `Model/Output.lean`): the
+names the VM looks up — the first part of each named field's name, `x` for `{x.real}` and
+`{x[0]}`, fields nested in a format spec included.  A format `Formatter().parse` rejects has no
+fields here (the compiler does not let it through). -/
+def fieldNames (cs : List Char) : List String :=
+  match Out.fieldHeads cs with
+  | some hs => Out.namedNames hs
+  | none => []
 
-/-- the field names of a format string, in order; `""` and all-digit names are positional -/
-def fields (cs : List Char) : List String := fieldsAux (cs.length + 1) cs
-
-def isPositional (n : String) : Bool := n.isEmpty || n.toList.all Char.isDigit
-
-def fieldNames (cs : List Char) : List String := (fields cs).filter (!isPositional ·)
-
-def positionalCount (cs : List Char) : Nat := ((fields cs).filter isPositional).length
+/-- the number of positional fields (auto-numbered or numbered, nested ones included): as many
+values as the compiler has read for the `printf` -/
+def positionalCount (cs : List Char) : Nat :=
+  match Out.fieldHeads cs with
+  | some hs => Out.countPositional hs
+  | none => 0
 
 def execInstr (img : Image) (s : State) (i : Instr) : State :=
   match i with
